@@ -181,6 +181,35 @@ def h_sample_float(sym, kind="uniform"):
     sym.goal("end")
 
 
+def h_ordinal_nn_active(sym, categories=(1, 4, 6, 7)):
+    """linear ordinal(nn) with an active sub-range: first active position and number of active categories are solver
+    variables; every vector inside get_ndarray_bounds() decodes into the active sub-range, every active member encodes inside the
+    bounds and round-trips"""
+    from syne_tune.optimizer.schedulers.searchers.utils.hp_ranges_impl import HyperparameterRangeOrdinalNearestNeighbor
+    stubs.shim_modules(MODS)
+    cats = list(categories)
+    first = sym.choice("first", len(cats))
+    num = 1 + sym.choice("num", len(cats) - first)
+    act = cats[first:first + num]
+    r = HyperparameterRangeOrdinalNearestNeighbor("o", tuple(cats), log_scale=False, active_choices=tuple(act))
+    (lo, hi), = r.get_ndarray_bounds()
+    sym.check(0.0 <= lo <= hi <= 1.0, "C07.encode-outside-cube", "active bounds (%s, %s)" % (lo, hi))
+    u = sym.real("u", 0.0, 1.0)
+    sym.assume(lo <= u)
+    sym.assume(u <= hi)
+    v = r.from_ndarray(SymArr([u]))
+    sym.check(any(v == c for c in act), "C07.decode-outside-active-range", "categories %s, active %s: a vector inside the bounds (%s, %s) decodes to %s" % (cats, act, lo, hi, v))
+    k = sym.choice("k", num)
+    enc = r.to_ndarray(act[k])
+    e = enc[0]
+    sym.check(lo <= e <= hi, "C07.encode-outside-cube", "active member %s encodes to %s outside the active bounds" % (act[k], e))
+    back = r.from_ndarray(enc if isinstance(enc, SymArr) else SymArr([e]))
+    sym.check(back == act[k], "C07.round-trip", "category %s decodes back to %s" % (act[k], back))
+    if 1 < num < len(cats):
+        sym.goal("proper-active-sub-range")
+    sym.goal("end")
+
+
 def h_ordinal_nn(sym, categories=(1, 2, 5), log_scale=False):
     from syne_tune.config_space import OrdinalNearestNeighbor
     from syne_tune.optimizer.schedulers.searchers.utils.hp_ranges_impl import HyperparameterRangeOrdinalNearestNeighbor
@@ -266,6 +295,10 @@ def obligations(tier):
                       goals=("end",) + (("quantized-wide",) if kind == "qrandint" else ()), split=(("lower", tuple(range(-4, 7))),), budget_s=900))
     for kind in ("uniform", "loguniform", "quniform"):
         obs.append(Ob("C07.d[sample,%s]" % kind, "props.c07:h_sample_float", dict(kind=kind), bounds=dict(), goals=("end",), budget_s=600))
+    for cats in ((1, 4, 6, 7), (0.5, 2.5, 3.0, 3.25, 8.0)):
+        obs.append(Ob("C07.e[ordinal-nn,%s,active-sub-range]" % (list(cats),), "props.c07:h_ordinal_nn_active", dict(categories=list(cats)),
+                      bounds=dict(categories=list(cats), active="every contiguous sub-range (symbolic first position and length)"),
+                      goals=("proper-active-sub-range", "end"), split=(("first", tuple(range(len(cats)))),), budget_s=600))
     for cats, lg in (((1, 2, 5), False), ((0.5, 2.0, 3.0, 10.0), False), ((1, 10, 100), True)):
         obs.append(Ob("C07.e[ordinal-nn,%s%s]" % (list(cats), ",log" if lg else ""), "props.c07:h_ordinal_nn", dict(categories=list(cats), log_scale=lg),
                       bounds=dict(categories=list(cats)), goals=("end",), budget_s=900))
